@@ -48,7 +48,7 @@ def well_formed(ir, sig=None, loose_text=False):
             continue
         extra = set(p) - ALLOWED_KEYS
         if extra:
-            out.append(("entry-keys", "%s: unexpected keys %s" % (name, sorted(extra))))
+            out.append(("entry-keys:" + ",".join(sorted(extra)), "%s: unexpected keys %s" % (name, sorted(extra))))
         if "typ" in p:
             if not isinstance(p["typ"], str):
                 out.append(("typ-not-str", "%s: typ is %r" % (name, p["typ"])))
@@ -136,6 +136,26 @@ CLASS_SRC = '''class K(object):
 '''
 
 
+# hand-written SQLAlchemy models: the Column(...) keywords a generated model never contains
+SQLA_COLUMNS = {
+    "pk-false": "Column(Integer, doc='the id', primary_key=False)",
+    "pk-true": "Column(Integer, doc='the id', primary_key=True)",
+    "nullable-false": "Column(String, doc='the name', nullable=False)",
+    "nullable-true": "Column(String, doc='the name', nullable=True)",
+    "default": "Column(String, doc='the name', default='x')",
+    "comment": "Column(String, comment='the name')",
+    "fk": "Column(Integer, ForeignKey('other.id'), doc='the other')",
+    "unique": "Column(String, doc='the name', unique=True)",
+    "index": "Column(String, doc='the name', index=True)",
+}
+
+
+def sqla_sources():
+    for tag, col in SQLA_COLUMNS.items():
+        yield ("sqla-src", "class/" + tag, 'class Conf(Base):\n    """\n    Conf\n    """\n\n    __tablename__ = "conf"\n\n    id = Column(Integer, primary_key=True, doc="the key")\n    col = %s\n' % col)
+        yield ("sqla-src", "table/" + tag, 'conf = Table(\n    "conf",\n    metadata,\n    Column("id", Integer, primary_key=True, doc="the key"),\n    %s,\n    comment="Conf",\n)\n' % col.replace("Column(", 'Column("col", ', 1))
+
+
 def check_one(job):
     kind = job[0]
     try:
@@ -155,6 +175,12 @@ def check_one(job):
                 import cdd.shared.docstring_parsers as dp
 
                 return [((k, "arbitrary-text", "-"), w, None) for k, w in well_formed(dp.parse_docstring(job[1]))]
+            if kind == "sqla-src":
+                import cdd.sqlalchemy.parse
+
+                node = ast.parse(job[2]).body[0]
+                fn = cdd.sqlalchemy.parse.sqlalchemy if isinstance(node, ast.ClassDef) else cdd.sqlalchemy.parse.sqlalchemy_table
+                return [((k, "sqlalchemy-source", job[1]), w, None) for k, w in well_formed(fn(node))]
             if kind == "merge":
                 import cdd.class_.parse
 
@@ -191,6 +217,7 @@ def main(tier, write_baseline=False):
         jobs = list(gen_docstrings())
         ndoc = len(jobs)
         jobs += [("merge", m) for m in ("build", "__init__", "make")]
+        jobs += list(sqla_sources())
         pool = domain.param_pool(["int", "str", "bool", "Optional[int]", "Literal['x', 'y']"], docs=["the {name}", ""])
         irs = list(domain.irs(1, pool, suffix_defaults=True)) + list(domain.irs(2, pool, sample=60 if tier == "quick" else 600, seed=run.seed, suffix_defaults=True))
         for fmt in ("class", "pydantic", "function", "argparse", "json_schema", "sqlalchemy", "sqlalchemy_table"):
@@ -211,7 +238,7 @@ def main(tier, write_baseline=False):
                 fails.setdefault(key, (j[0], j[1:] if j[0] != "code" else [j[1], j[3], j[2]], what))
         run.bounded.append({
             "name": "well_formed_ir(result) as a run-time postcondition on the real parsers (bounded, NOT counted as proved)",
-            "bound": "%d grammar-generated docstrings (3 styles, sections in either order, *args/**kwargs entries, comma types with ', optional', notes/raises/examples, multi-line descriptions) through docstring.parse and parse_docstring; class_ with merge_inner_function on 3 methods; %d generated interfaces x 7 code/schema formats x styles; %d token strings of <= 3 tokens as arbitrary text; %d evaluations raised" % (ndoc, len(irs), len(texts), raised),
+            "bound": "%d grammar-generated docstrings (3 styles, sections in either order, *args/**kwargs entries, comma types with ', optional', notes/raises/examples, multi-line descriptions) through docstring.parse and parse_docstring; class_ with merge_inner_function on 3 methods; 18 hand-written SQLAlchemy models (class and Table) with Column keywords primary_key / nullable / default / comment / ForeignKey / unique / index; %d generated interfaces x 7 code/schema formats x styles; %d token strings of <= 3 tokens as arbitrary text; %d evaluations raised" % (ndoc, len(irs), len(texts), raised),
             "rule": "one parser call per input; non-trivial = the parser returns",
             "evaluations": len(jobs), "distinct_nontrivial": len(jobs) - raised,
             "failures": [{"class": "|".join(map(str, k)), "what": v[2][:200]} for k, v in list(fails.items())[:6]],
